@@ -21,10 +21,10 @@ func runC13(c *Ctx) {
 
 	P := func(k testKey) ref.Point { return ref.Point{X: k.x, Y: k.y} }
 	type kxCase struct {
-		cls            string
-		a, b, ra, rb   testKey
-		ida, idb       []byte
-		klen           int
+		cls          string
+		a, b, ra, rb testKey
+		ida, idb     []byte
+		klen         int
 	}
 	runCase := func(cs kxCase) {
 		w := map[string]interface{}{"class": cs.cls, "dA": cs.a.d.Text(16), "dB": cs.b.d.Text(16), "rA": cs.ra.d.Text(16), "rB": cs.rb.d.Text(16), "idA": mon.Hex(cs.ida), "idB": mon.Hex(cs.idb), "klen": cs.klen}
